@@ -39,6 +39,8 @@ LoggedCfgIdx(c, ids) == {s \in NS(c) : c.states[s].id \in SeqToSet(ids)}
 Visible(exec, a) ==
     CASE exec \in {"large", "fast"} -> TRUE
       [] exec = "genc" -> a.a \in {"deq", "log", "raise", "send"}
+      \* the interpreter with its DEFAULT components (no recording queues installed)
+      [] exec = "default" -> a.a \notin {"deq", "raise", "send"}
       [] exec = "pml"  -> a.a \in {"deq", "log", "exit", "enter", "take"}
       [] OTHER -> TRUE
 
@@ -64,7 +66,7 @@ TInit ==
     /\ InitFor(1)
     /\ l = 1
     /\ skip = TRUE
-    /\ case = [case |-> 0, exec |-> "none", chart |-> 1, resumed |-> FALSE]
+    /\ case = [case |-> 0, exec |-> "none", chart |-> 1, resumed |-> FALSE, api |-> FALSE]
 
 TReset ==
     /\ Line.k = "reset"
@@ -75,10 +77,11 @@ TReset ==
     /\ ret' = "INSTANTIATED"
     /\ rootEntries' = 0
     /\ skip' = FALSE
-    /\ case' = [case |-> Line.case, exec |-> Line.exec, chart |-> Line.chart, resumed |-> FALSE]
+    /\ case' = [case |-> Line.case, exec |-> Line.exec, chart |-> Line.chart, resumed |-> FALSE, api |-> Line.mode = "api"]
     /\ l' = l + 1
 
-PropOf(p) == IF case.resumed /\ p \in {"C01", "C10"} THEN "C14"
+PropOf(p) == IF case.api /\ p \in {"C01", "C07"} THEN "C10"
+             ELSE IF case.resumed /\ p \in {"C01", "C10"} THEN "C14"
              ELSE IF case.exec = "genc" /\ p \in {"C01", "C10", "C07"} THEN "C04"
              ELSE IF case.exec = "pml" /\ p \in {"C01", "C10", "C07"} THEN "C06" ELSE p
 
@@ -135,6 +138,12 @@ TCancel ==
     /\ UNCHANGED <<skip, case>>
     /\ l' = l + 1
 
+TResetCall ==
+    /\ Line.k = "call" /\ Line.op = "reset" /\ ~skip
+    /\ EnvReset
+    /\ UNCHANGED <<skip, case>>
+    /\ l' = l + 1
+
 \* C14: the original interpreter was serialized and a fresh one resumed from the text
 TResume ==
     /\ Line.k = "call" /\ Line.op = "resume" /\ ~skip
@@ -172,7 +181,7 @@ TSkip ==
     /\ l' = l + 1
 
 TNext == /\ l <= Len(TraceLog)
-         /\ (TReset \/ TStep \/ TReceive \/ TCancel \/ TResume \/ TEnd \/ TSkip)
+         /\ (TReset \/ TStep \/ TReceive \/ TCancel \/ TResetCall \/ TResume \/ TEnd \/ TSkip)
          /\ (l = Len(TraceLog) => PrintCounts)
 
 TraceSpec == TInit /\ [][TNext]_tvars
